@@ -144,12 +144,16 @@ def export(ctx, cfg):
     cwd = ctx.int("cwd", 0, 1)
     fs.chdir(ctx.conc(cwd))
     elsewhere = "-from-other-directory" if ctx.conc(cwd) != 0 else ""
+    before = fs.read(0, "x.blm")
     try:
         f.export(fs.path(0, "copy.blm"))
     except FileNotFoundError:
         ctx.check(False, "export-finds-own-file" + elsewhere)
         return
     a, b = fs.read(0, "x.blm"), fs.read(0, "copy.blm")
+    # an export is a query (C19): the filter's own file is what it was after the add (also when the added key was already
+    # present - round 5: a repeated-key fast path left the footer to the next export)
+    ctx.check(env.blob_eq(ctx, before, a), "export-leaves-own-file")
     ctx.check(b is not None and env.blob_eq(ctx, a, b), "export-copy-identical")
     f.export(fs.path(0, "x.blm"))       # exporting onto itself: nothing to do
     ctx.check(env.blob_eq(ctx, a, fs.read(0, "x.blm")), "export-to-self-noop")
